@@ -84,6 +84,7 @@ pub fn generate(prop: &str, tier: Tier, seed: u64, run: u64) -> Trace {
         "C01" => crate::gen_term::gen_term("C01", &mut rng, run, thorough),
         "C09" => crate::gen_term::gen_term("C09", &mut rng, run, thorough),
         "C10" if run % 4 == 3 => crate::gen_load::gen_load("C10", &mut rng, run, thorough),
+        "C10" if run % 16 == 9 => crate::gen_gfx::gen_c10_rip(&mut rng),
         "C10" => crate::gen_term::gen_term("C10", &mut rng, run, thorough),
         "C02" if run < trunc_runs(tier) => crate::gen_load::gen_load_enum("C02", seed, run / crate::gen_load::TRUNC_QUOTA, run % crate::gen_load::TRUNC_QUOTA, true),
         "C02" if run < enum_runs(tier) => {
